@@ -27,7 +27,7 @@ ANCHORS = [
     "acnportal.acnsim.network.charging_network:ChargingNetwork.update_pilots",
 ]
 REQUIRED = ["runs_judged", "schedules_submitted", "empty_schedules", "schedules_beyond_horizon", "schedule_in_last_period_beyond_horizon",
-            "set_pilot_calls_checked", "held_pilots_checked", "twin_runs", "malformed_unknown_station_rejected", "malformed_unequal_rejected", "resumed_after_rejection",
+            "set_pilot_calls_checked", "held_pilots_checked", "runs_with_one_mapping_object_overwritten_in_place", "twin_runs", "malformed_unknown_station_rejected", "malformed_unequal_rejected", "resumed_after_rejection",
             "infeasible_schedule_warnings", "probe_ev_cells_checked", "regime:mr-None", "regime:mr-1", "regime:mr-k"]
 BUDGET_S = {"quick": 240, "thorough": 3000}
 
@@ -64,6 +64,8 @@ def cases(seed, tier):
     for i in range(n):
         d = gen.scenario(rng, sched="scripted", big=rng.random() < 0.5, long_p=rng.choice([0, 0.1, 0.5]),
                          max_len=rng.choice([1, 3, 5, 12]), p_empty=rng.choice([0.0, 0.15, 0.4]))
+        if rng.random() < 0.15:
+            d["scheduler"].update(mode="allrand", buffered=True, max_len=rng.choice([1, 1, 2, 3]), mr=rng.choice([1, 1, 2]))
         mal = None
         if rng.random() < 0.25:
             last = max(s["departure"] for s in d["sessions"])
@@ -194,6 +196,8 @@ def run_case(case, obs):
             return
         T = sim.iteration
     obs.ev("runs_judged")
+    if d["scheduler"].get("buffered"):
+        obs.ev("runs_with_one_mapping_object_overwritten_in_place")
     good = [(t, s) for t, s in subs if s != "BAD"]
     obs.ev("schedules_submitted", len(good))
     obs.ev("empty_schedules", sum(1 for _, s in good if not s))
